@@ -2,8 +2,11 @@ package sim
 
 import (
 	"fmt"
+	"io"
 	"strings"
 	"time"
+
+	xmpp "gosrc.io/xmpp"
 
 	"gosrc.io/xmpp/stanza"
 )
@@ -30,10 +33,11 @@ type c10Step struct {
 }
 
 type c10Scenario struct {
-	Client    ClientOpts `json:"client"`
-	Steps     []c10Step  `json:"steps"`
-	Seg       int        `json:"segmentation"`
-	LatencyNs int64      `json:"latency_ns"`
+	AfterRefusedResume int        `json:"previous_session_stanzas_then_refused_resume"` // >0: a previous stream-managed session held this many stanzas, was lost, and its resumption was refused
+	Client             ClientOpts `json:"client"`
+	Steps              []c10Step  `json:"steps"`
+	Seg                int        `json:"segmentation"`
+	LatencyNs          int64      `json:"latency_ns"`
 }
 
 func init() {
@@ -50,6 +54,9 @@ func runC10(e *Engine, g G, o RunOpt) RunInfo {
 	sc := &c10Scenario{Client: DefaultClientOpts()}
 	sc.Client.SM = true
 	sc.Client.SMResume = true
+	if g.Pct("after-refused-resume", 20) {
+		sc.AfterRefusedResume = g.Range("old-held", 1, 4)
+	}
 	ns := g.Range("nsteps", 2, 8)
 	for i := 0; i < ns; i++ {
 		switch g.Weighted("step", 5, 5, 1, 2, 1) {
@@ -236,9 +243,38 @@ func runC10(e *Engine, g G, o RunOpt) RunInfo {
 
 	e.Run(func() {
 		var ok bool
-		s, ok = StartClient(e, sc.Client, []NegScript{script}, func(w *CW, srv *Server) { w.CatchAll() })
+		refuse := script
+		refuse.Resume = ResumeFailed
+		refuse.SMId = "sm-2"
+		s, ok = StartClient(e, sc.Client, []NegScript{script, refuse}, func(w *CW, srv *Server) { w.CatchAll() })
 		if !ok || !s.Conn.Enabled {
 			return
+		}
+		if sc.AfterRefusedResume > 0 {
+			// a first session leaves held stanzas behind; it is lost; the server refuses to resume it:
+			// the new stream-managed session must start from scratch
+			for i := 0; i < sc.AfterRefusedResume; i++ {
+				id := fmt.Sprintf("old%d", i+1)
+				e.Call("SendRaw "+id, func() error {
+					return s.W.Client.SendRaw(fmt.Sprintf("<message id='%s' to='peer@%s'><body>of the lost session</body></message>", id, SimDomain))
+				})
+			}
+			e.Sleep(100 * time.Millisecond)
+			s.Cli.CutAt = s.Conn.End.TotalWritten
+			s.Cli.CutErr = io.EOF
+			if e.WaitUntilFor("lost", time.Minute, func() bool { return countState(s.W.Events, xmpp.StateDisconnected) > 0 }) {
+				return
+			}
+			e.Sleep(time.Second)
+			err, _ := e.Call("Resume", s.W.Client.Resume)
+			if err != nil || len(s.Srv.Conns) != 2 || !s.Srv.Conns[1].Enabled {
+				e.Logf("c10", "could not set up the second session: %v", err)
+				return
+			}
+			s.Conn = s.Srv.Conns[1]
+			s.Cli = s.Conn.Pipe.Cli
+			e.Sleep(100 * time.Millisecond)
+			e.Probe("c10.new_session_after_refused_resume")
 		}
 		established = true
 		conn := s.Conn
